@@ -113,7 +113,8 @@ func (s *Server) referrerGet(repoStr, arg string) http.HandlerFunc {
 			if filterAT != "" {
 				w.Header().Add(referrerFilterATHeaderKey, referrerFilterATHeaderValue)
 			}
-			if page >= len(cacheResp) {
+			// a page number only applies to the response it was issued for, restart when the list has changed
+			if page >= len(cacheResp) || (page > 0 && cacheDig != d.Digest.String()) {
 				page = 0
 			}
 			if page+1 < len(cacheResp) {
